@@ -33,13 +33,15 @@ structure Sc where
   abortMs : Int
   T : Int
   ackUs : Int
+  route : String
+  framing : String
 
 def parseSc (j : Json) : Sc :=
   { engine := jstr (jget j "engine"), profile := jstr (jget j "profile"), forced := jbool (jget j "forced"), ct := jstr (jget j "ct"),
     pre := jstr (jget j "pre"), steps := (jarr (jget j "steps")).map (fun s => (jint (jget s "gap_ms") * 1000, jnat (jget s "size"))),
     ending := jstr (jget j "ending"), endGapUs := jint (jget j "end_gap_ms") * 1000,
     abortBytes := jint (jget j "abort_bytes"), abortMs := jint (jget j "abort_ms"),
-    T := jint (jget j "timeout_ms") * 1000, ackUs := jint (jget j "ack_ms") * 1000 }
+    T := jint (jget j "timeout_ms") * 1000, ackUs := jint (jget j "ack_ms") * 1000, route := jstr (jget j "route"), framing := jstr (jget j "framing") }
 
 def fillOf (k : Nat) : Nat := 97 + k % 26
 
@@ -72,7 +74,12 @@ def handleScenario (case : Nat) (j : Json) : IO Unit := do
   let cStatus := jnat (jget cl "status")
   let cAbortUs := jint (jget cl "abort_us")
   let cRle : RLE := (jarr (jget cl "rle")).map (fun p => match jarr p with | [a, b] => (jnat a, jnat b) | _ => (0, 0))
-  let aborted := cEnd == "aborted"
+  -- an "abort" after the backend had already finished its response (buffered responses reach the client only
+  -- at the very end) cancels nothing: there is no upstream request left
+  let abortedLate := cEnd == "aborted" && (endKind == "eof" || endKind == "reset") && endUs ≤ cAbortUs
+  let aborted := cEnd == "aborted" && !abortedLate
+  if abortedLate then
+    emit case true true "trivial" "" s!"client closed at {cAbortUs}us, after the backend had finished ({endKind} at {endUs}us)"; return
   if !got then
     emit case false true "request-never-reached-backend" "" s!"client status {cStatus} end {cEnd}"; return
   -- what the backend actually sent, when
@@ -81,8 +88,10 @@ def handleScenario (case : Nat) (j : Json) : IO Unit := do
   let nSent := sent.length
   -- the configured profile as it reaches the engine
   let effProfile := if sc.forced then sc.profile else wiredProfile activeWiring sc.profile
-  let st := (streams effProfile sc.ct false).getD true
-  let must := mustStream sc.profile sc.ct
+  -- route anthropic: the engine writes into a pipe, the Anthropic stream translator writes AND flushes every event
+  let anth := sc.route == "anthropic"
+  let st := anth || (streams effProfile sc.ct false).getD true
+  let must := anth || mustStream sc.profile sc.ct
   let torn : Option Int := if tornUs ≥ 0 then some tornUs else none
   -- ---------------------------------------------------------------- stall before any header
   if sc.pre == "stall" || hdrUs < 0 then
@@ -112,13 +121,17 @@ def handleScenario (case : Nat) (j : Json) : IO Unit := do
       | _ => (if sc.ending == "stall" then [(0, Ev.stallForever)] else
           [((if sc.endGapUs < sc.ackUs && !((sent.getLast?.map (·.acked)).getD true) then sc.ackUs else sc.endGapUs),
             if sc.ending == "eof" then Ev.eof else Ev.err)])
-  let sched : Sched (Nat × Nat) := ((recGaps.zip sent).map (fun (g, c) => (g, Ev.chunk [(c.fill, c.size)]))) ++ doneEv
+  -- Content-Length framing: net/http hands the final bytes over together with io.EOF (`Ev.last`)
+  let fused := sc.framing == "cl" && endKind == "eof" && nSent == sc.steps.length && nSent > 0
+  let body : Sched (Nat × Nat) := (enumFrom 0 (recGaps.zip sent)).map (fun (k, (g, c)) =>
+    (g, if fused && k + 1 == nSent then Ev.last [(c.fill, c.size)] else Ev.chunk [(c.fill, c.size)]))
+  let sched : Sched (Nat × Nat) := if fused then body else body ++ doneEv
   let ab : Option Abort := if aborted then some ⟨cAbortUs, some 0⟩ else none
   let r := if sc.engine == "sherpa" then sherpaLoop sc.T graceUs st ab hdrUs sched else ollaLoop active sc.T st ab hdrUs sched
   let mWritten : RLE := rleNorm (written (outs r.out))
   let mWrites := (r.out.filter (fun e => match e.2 with | .write _ => true | _ => false)).length
   -- ---------------------------------------------------------------- timing classification
-  let allGaps := recGaps ++ (match endKind with | "eof" => [endUs - lastT] | "reset" => [endUs - lastT] | _ => [])
+  let allGaps := recGaps ++ (if fused then [] else match endKind with | "eof" => [endUs - lastT] | "reset" => [endUs - lastT] | _ => [])
   let ambiguous := allGaps.any (fun g => g > sc.T - shortMarginUs && g < sc.T + slackUs)
   let allShort := allGaps.all (fun g => g ≤ sc.T - shortMarginUs)
   if ambiguous then
@@ -137,7 +150,13 @@ def handleScenario (case : Nat) (j : Json) : IO Unit := do
   let nearAbort := aborted && r.outcome.isSome && (r.endT - cAbortUs ≤ 20000) && (cAbortUs - r.endT ≤ 20000)
   let classAgree := implClass == outcomeStr r.outcome || (implClass == "clientGone" && nearAbort)
   -- bytes
-  let bytesAgree := if aborted then rlePrefix (rleNorm cRle) mWritten else rleNorm cRle == mWritten
+  -- the pinned olla loop relays a chunk that arrives after a pause >= T and is then stopped by the polled timer
+  -- BETWEEN the reads that chunk is split into: of that last chunk any prefix may have been relayed
+  let lastWriteLate := sc.engine == "olla" && r.outcome == some .readTimeout && mWrites > 0 &&
+    ((recGaps.getD (mWrites - 1) 0) ≥ sc.T)
+  let mWrittenButLast : RLE := rleNorm ((written (outs r.out)).take (mWrites - 1))
+  let bytesAgree := if anth then true else if aborted then rlePrefix (rleNorm cRle) mWritten
+    else rleNorm cRle == mWritten || (lastWriteLate && rlePrefix (rleNorm cRle) mWritten && rlePrefix mWrittenButLast (rleNorm cRle))
   -- liveness, for the chunks the model relayed
   let relayed := (sent.take mWrites).filter (fun c => !aborted || c.acked || c.t + sc.ackUs < cAbortUs)
   let cum := (relayed.foldl (fun (acc : Nat × List Nat) c => (acc.1 + c.size, acc.2 ++ [acc.1 + c.size])) (0, [])).2
@@ -158,25 +177,30 @@ def handleScenario (case : Nat) (j : Json) : IO Unit := do
   let due := sent.take liveCount
   let s1 := liveOK must due
   let completed := sc.ending == "eof" && endKind == "eof" && allShort && !aborted && nSent == sc.steps.length
-  let s2 := wholeOK completed sent (cEnd == "clean") cStatus cRle
+  -- (translated streams: that the events are the right ones is C13; here only that the stream ended cleanly)
+  let s2 := if anth then (!completed || (cEnd == "clean" && cStatus == 200)) else wholeOK completed sent (cEnd == "clean") cStatus cRle
   let fin : Option Int := if hung || !clientEnded then none else some cEndUs
   let s3 := aborted || stallOK (sc.T + slackUs) hdrUs sendTimes fin
   let s4 := !aborted || abortOK (graceUs + slackUs) cAbortUs torn
-  let spec := s1 && s2 && s3 && s4
+  -- (only a backend that has kept EVERY pause short is "merely pausing"; after a long pause the stall clause judges)
+  let s5 := recGaps.any (fun g => g > sc.T - shortMarginUs) ||
+    notCutOK (sc.T - shortMarginUs) lastT (if endKind == "torn" && !aborted then torn else none)
+  let spec := s1 && s2 && s3 && s4 && s5
   let sig :=
     if spec then ""
+    else if !s5 then s!"{sc.engine}-live-stream-cut"
     else if !s3 then s!"{sc.engine}-stall-unnoticed"
     else if !s1 then (if !sc.forced && sc.profile == "streaming" && !mustStream "auto" sc.ct then "configured-streaming-profile-ignored" else s!"{sc.engine}-chunk-not-live")
     else if !s2 then s!"{sc.engine}-completed-stream-not-whole"
     else s!"{sc.engine}-abort-not-propagated"
-  let branch := s!"{sc.engine}.{outcomeStr r.outcome}.{if st then "live" else "buffered"}" ++ (if aborted then ".abort" else "") ++
+  let branch := (if anth then "translated." else "") ++ s!"{sc.engine}.{outcomeStr r.outcome}.{if st then "live" else "buffered"}" ++ (if aborted then ".abort" else "") ++
     (if allGaps.any (fun g => g ≥ sc.T + slackUs) then ".long-pause" else "")
   let note :=
     if spec && agree then "" else
-      s!"{sc.engine} profile {sc.profile}{if sc.forced then "(forced)" else "(wired)"} {sc.ct} T={sc.T}us: pauses {allGaps}us, ending {sc.ending}; " ++
+      s!"{sc.engine}{if anth then " [anthropic translation route]" else ""} profile {sc.profile}{if sc.forced then "(forced)" else "(wired)"} {sc.ct} T={sc.T}us: pauses {allGaps}us, ending {sc.ending}; " ++
       s!"impl: class {implClass}, client end '{cEnd}' at {cEndUs}us status {cStatus} bytes {rleLen cRle}, acks {sent.map (·.acked)}, backend end '{endKind}' at {endUs}us torn {tornUs}us; " ++
       s!"model({if sc.engine == "olla" then reprStr active else "sherpa"}): {outcomeStr r.outcome} at {r.endT}us, {mWrites} writes {rleLen mWritten} bytes, streaming={st}; " ++
-      s!"clauses live={s1} whole={s2} stall={s3} abort={s4}; agree class={classAgree} bytes={bytesAgree} live={liveAgree} time={timeAgree}"
+      s!"clauses live={s1} whole={s2} stall={s3} abort={s4} not-cut={s5}; agree class={classAgree} bytes={bytesAgree} live={liveAgree} time={timeAgree}"
   emit case agree spec branch sig note
     (Json.mkObj [("outcome", toJson (outcomeStr r.outcome)), ("end_us", toJson r.endT), ("writes", toJson mWrites), ("streaming", toJson st)])
 
